@@ -1,22 +1,29 @@
 #!/bin/bash
-# runs every seeded change against the check of the property it was written for (and listed extra checks); writes seeded/RESULTS.tsv
+# Applies every seeded change to a scratch worktree of /repo (outside /repo and /verif), runs the quick check of the
+# property it was written for (plus listed cross-checks) against that copy, removes the copy. Writes seeded/RESULTS.tsv.
+# Neither /repo nor the committed evidence is touched.
 cd /verif
 out=seeded/RESULTS.tsv
 echo -e "seed\tcheck\ttier\trc\tverdict" > $out
+export VERIF_EVIDENCE_DIR=/tmp/seedmatrix_evidence VERIF_REPLAY_DIR=/tmp/seedmatrix_replays
 run() { # seed check
-  local d=seeded/$1 p=$2
+  local d=seeded/$1 p=$2 wt=/tmp/sm_$1_$2
   local patch=$d/patch.diff
   [ -f $d/patch_ported_to_fixed_tree.diff ] && patch=$d/patch_ported_to_fixed_tree.diff
-  ./tools/try_seed.sh /verif/$patch $p quick > .work/seedrun_$1_$p.log 2>&1; rc=$?
-  v=missed; [ $rc -eq 1 ] && v=caught; [ $rc -eq 2 ] && v=no-verdict
-  echo -e "$1\t$p\tquick\t$rc\t$v" >> $out
+  git -C /repo worktree remove --force $wt 2>/dev/null
+  git -C /repo worktree add -q --detach $wt HEAD || return
+  if git -C $wt apply /verif/$patch; then
+    VERIF_REPO=$wt ./check $p --tier quick > .work/seedrun_$1_$p.log 2>&1; rc=$?
+  else rc=3; fi
+  git -C /repo worktree remove --force $wt
+  v=missed; [ $rc -eq 1 ] && v=caught; [ $rc -eq 2 ] && v=no-verdict; [ $rc -eq 3 ] && v=patch-does-not-apply
+  echo -e "$1\t$p\tquick\t$rc\t$v" | tee -a $out
 }
 for d in seeded/C*; do
   s=$(basename $d); p=${s%%-*}
   run $s $p
 done
-# cross catches
 run C01-B C15
 run C18-B C10
 run C11-B C13
-cat $out
+rm -rf /tmp/seedmatrix_evidence /tmp/seedmatrix_replays
